@@ -92,6 +92,14 @@ CHECKS["C09"] = (
     "DESIGN.md 6/C09",
 )
 
+CHECKS["C07"] = (
+    "exploration",
+    "exhaustive enumeration of small stream descriptions x omitted/AUTO/explicit choices through the real autofill_and_serialise_stream; reference autofill rules evaluated directly on the output bytes; cross-check with the validator via the stream-structure reference",
+    "All data-unit lists up to 3 (4) units per sequence over 10 unit kinds (one and two sequences) with everything omitted, and all single/pair (triple) deviations of next/previous offset, picture number, major_version (omitted, AUTO, explicit), six version-raising header features and four transform variants on nine base streams: explicit values must appear unchanged, parse offsets must be the true distances found by an independent scan (0 at sequence ends/starts), picture numbers must count from the previous picture per sequence with wrap-around and repeat within fragments, AUTO major_version must be the minimum required, and the validator must accept exactly the structurally valid results.",
+    "Descriptions the serialiser refuses are out of scope; tiny explicit frame size.",
+    "DESIGN.md 6/C07",
+)
+
 NOT_YET = "check not built yet in this revision (planned, see DESIGN.md section 6)"
 
 
